@@ -736,7 +736,13 @@ def witness_cpp(t, workdir: pathlib.Path, std: str, direction: str, n_cases: int
                 data = bytes(rng.getrandbits(8) for _ in range(rng.randint(0, mbytes + 2)))
             inputs.append((data, len(data)))
         # prior state: the destination first receives a decode of an all-ones message (the outcome must not depend on it)
-        ones = ", ".join(["255"] * (mbytes + 2))
+        # ... of a VALID message whose arrays are at capacity (an all-ones byte string is rejected by most types and would
+        # leave the destination untouched)
+        pv = gen_composite(random.Random(5), t, "ones")
+        while not _valid_tags(t, pv):
+            pv = gen_composite(random.Random(6), t, "rand")
+        prc, pbytes = serialize_ref(t, pv, mbytes + 64)
+        ones = ", ".join(str(b) for b in (pbytes if prc == 0 and pbytes else b"\xff" * (mbytes + 2)))
         body.append(f"static void run(int k) {{ {ctype} obj{{}}; {{ static const std::uint8_t o_[] = {{ {ones} }}; (void) deserialize(obj, nunavut::support::const_bitspan{{o_, sizeof(o_)}}); }} switch (k) {{")
         for k, (data, size) in enumerate(inputs):
             erc, ev, esz = deserialize_ref(t, data, size)
